@@ -580,3 +580,16 @@ func ParamOf(v ssa.Value) *ssa.Parameter {
 	}
 	return nil
 }
+
+// CalleeName: a short name of the static callee of a call instruction ("?" if dynamic).
+func CalleeName(in ssa.Instruction) string {
+	if c := AsCallAny(in); c != nil {
+		if f := c.Common().StaticCallee(); f != nil {
+			return f.Name()
+		}
+		if c.Common().IsInvoke() {
+			return c.Common().Method.Name()
+		}
+	}
+	return "?"
+}
